@@ -166,25 +166,28 @@ okind = declare_pred("okind", L.V, L.V)
 
 
 def _import_module2(ip, a, kw, node):
-    # assumption: importing a stored module either succeeds or raises ModuleNotFoundError (import-time failures are outside)
+    # importing a stored module either succeeds or raises some ImportError (ModuleNotFoundError, or what a broken / half-removed package raises);
+    # assumption: exceptions of other classes raised by a module's import-time code are outside (the property's stale kinds are about names that moved)
     if not ip.branch(module_exists(as_v(a[0])), getattr(node, "lineno", 0)):
-        raise RaisedEx(ExcVal("ModuleNotFoundError", exact=True), getattr(node, "lineno", 0))
+        raise RaisedEx(ExcVal("ImportError", exact=False), getattr(node, "lineno", 0))
     return ZV(L.fn("imported", L.V, L.V)(as_v(a[0])), "Obj")
 
 
 R.EXTERNALS["importlib.import_module"] = R.ExtFn(_import_module2)
 
 
-def _obj_getattr(ip, obj, name, node):
+def _obj_getattr(ip, obj, name, node, dynamic=False):
     nm = as_v(name)
     if not ip.branch(has_attr(obj.term, nm), getattr(node, "lineno", 0)):
-        raise RaisedEx(ExcVal("AttributeError", exact=True), getattr(node, "lineno", 0))
+        # a *dynamic* lookup runs module-level __getattr__, properties and descriptors of the stored name's owner: a missing name raises AttributeError,
+        # a stale one whatever that code raises (any Exception); inspect.getattr_static runs no such code
+        raise RaisedEx(ExcVal("Exception", exact=False) if dynamic else ExcVal("AttributeError", exact=True), getattr(node, "lineno", 0))
     return ZV(attr_of(obj.term, nm), "Obj")
 
 
 def _dyn_getattr2(ip, a, kw, node):
     if isinstance(a[0], ZV) and base_tag(a[0].tag) == "Obj" and len(a) == 2:
-        return _obj_getattr(ip, a[0], a[1], node)
+        return _obj_getattr(ip, a[0], a[1], node, dynamic=True)
     return None
 
 
@@ -272,8 +275,8 @@ R.EXTERNALS["monkeytype.typing:mappingproxy"] = ZV(L.atom("cls", "mappingproxy")
 
 
 def _any_getter_call(ip, r, a, kw, node):
-    """attr_getter passed by the caller: getattr-like (succeeds or raises AttributeError)."""
-    return _obj_getattr(ip, a[0], a[1], node)
+    """attr_getter passed by the caller: getattr-like (succeeds, or raises like a dynamic getattr)."""
+    return _obj_getattr(ip, a[0], a[1], node, dynamic=True)
 
 
 R.METHODS[("Getter", "__call__")] = _any_getter_call
